@@ -446,8 +446,8 @@ def rewire(ctx, rule="C11.rewire"):
             ctx.ob(rule, f.site, ok, "" if ok else f"loop over `{src[:40]}`: on the path [{why}] the successor `{var}` of a replaced "
                    "node gets no incoming edge from the merged block - it is no longer ordered after the gates it followed",
                    role=f"reattach:{k}", line=loop.lineno, detail={"paths": npaths})
-    ctx.require(n >= 2, f"only {n} successor re-attachment loops found in gaussian_merge.py")
-    ctx.floor(rule, 2)
+    ctx.require(n >= 1, f"only {n} successor re-attachment loops found in gaussian_merge.py")
+    ctx.floor(rule, 1)
 
 
 REACHABILITY = ("ancestors", "descendants", "has_path", "transitive_closure", "all_simple_paths", "shortest_path", "dfs_preorder_nodes",
